@@ -77,8 +77,15 @@ func StartHTTPAt(addr string) (*HTTPSrv, error) {
 			s.rec = append(s.rec, HTTPReq{Method: r.Method, URI: r.RequestURI, Headers: h, Body: vh.Hex(body)})
 			s.mu.Unlock()
 		}
-		w.Header().Set("Content-Type", "application/json")
 		w.Header().Set("Authorization", "Bearer abcdef0123456789")
+		if strings.HasPrefix(r.RequestURI, "/page") {
+			// an HTML answer for var/xpath postprocessors
+			w.Header().Set("Content-Type", "text/html")
+			w.WriteHeader(200)
+			_, _ = w.Write([]byte(`<html><body><div id="x">v1</div><ul><li class="i">a</li><li class="i">b</li></ul></body></html>`))
+			return
+		}
+		w.Header().Set("Content-Type", "application/json")
 		w.WriteHeader(200)
 		if strings.Contains(r.RequestURI, "nok") {
 			_, _ = w.Write([]byte(`{"result":"bad","items":[]}`))
